@@ -49,6 +49,7 @@ type FuncContract struct {
 	GhostVars    []*GhostVar
 	Afters       []*GhostUpdate
 	MakeChans    map[int][]*Clause // ghost facts fixed at the n-th make(chan) of the function
+	StableBetweenSections bool     // `stablebetweensections`: opt out of the interference model at lock re-acquisition (assumption, listed)
 	AllocAssumes []*Clause         // ghost facts fixed for every backing array the function allocates (make / growing append); `a` = array id
 }
 
@@ -264,7 +265,7 @@ func ParseContracts(dir, pkgPath string) (*PkgContracts, error) {
 			if cur != nil {
 				cur.Props = append(cur.Props, strings.Fields(rest)...)
 			}
-		case "requires", "ensures", "acquires", "releases":
+		case "requires", "ensures", "trustedensures", "acquires", "releases":
 			if cur == nil && curLemma != nil && (kw == "requires" || kw == "ensures") {
 				c, err := mkClause(kw, props, rest, l.no)
 				if err != nil {
@@ -290,6 +291,9 @@ func ParseContracts(dir, pkgPath string) (*PkgContracts, error) {
 			case "requires":
 				cur.Requires = append(cur.Requires, c)
 			case "ensures":
+				cur.Ensures = append(cur.Ensures, c)
+			case "trustedensures":
+				// assumed at call sites, NOT proved against the body (listed in the evidence)
 				cur.Ensures = append(cur.Ensures, c)
 			case "acquires":
 				cur.Acquires = append(cur.Acquires, c)
@@ -332,6 +336,13 @@ func ParseContracts(dir, pkgPath string) (*PkgContracts, error) {
 			cur.Inline = true
 		case "trusted":
 			cur.Trusted = true
+		case "interference":
+			// (default since the model became global; kept as a no-op so that contracts may say it explicitly)
+		case "stablebetweensections":
+			if cur == nil {
+				return nil, fmt.Errorf("%s:%d: stablebetweensections outside func", file, l.no)
+			}
+			cur.StableBetweenSections = true
 		case "nopanic":
 			cur.NoPanic = true
 			cur.NoPanicProps = parseProps(props)
